@@ -172,10 +172,19 @@ package app
 //@ spec
 //@ ghost var loadOK bool
 
-//@ func config.Parse
-//@   trusted
-//@ func config.Compile
-//@   trusted
+//@ spec
+//@ ghost var lastParsed []byte
+//@ ghost var lastParsedCfg *config.Config
+//@ ghost var compiledOKContent []byte
+//@ ghost var reloadOK bool
+
+//@ extern config.Parse(input) (cfg, err)
+//@   modifies lastParsed, lastParsedCfg
+//@   ensures err == nil ==> lastParsed == input && lastParsedCfg == cfg
+//@   ensures err != nil ==> lastParsed == old(lastParsed) && lastParsedCfg == old(lastParsedCfg)
+//@ extern config.Compile(cfg) (compiled, res)
+//@   modifies compiledOKContent
+//@   ensures compiledOKContent == ite(res.OK && cfg == lastParsedCfg, lastParsed, old(compiledOKContent))
 //@ func config.Format
 //@   trusted
 //@ func config.FormatValidationText
@@ -216,3 +225,15 @@ package app
 //@   ensures [C18:failure_returns_running_config] !result1 ==> result0 == running
 //@   ensures [C18:failure_enters_no_write_section] !result1 ==> writeSections == old(writeSections)
 //@   ensures [C18:success_switches_in_one_write_section] result1 ==> writeSections == old(writeSections) + 1
+
+//@ fieldfunc admin.ManagementEndpointMutationResult.PostWriteValidate() (err)
+//@ extern param:mutation(cfg, compiled) (result, err)
+//@ extern os.ReadFile(name) (data, err)
+
+//@ func mutateManagedEndpointConfig
+//@   requires state != nil
+//@   modifies *
+//@   calls writeFileAtomic requires [C18:writes_only_compiling_content_or_the_previous_content] arg0 == path && ((arg1 == formatted && compiledOKContent == formatted) || arg1 == data)
+//@   ensures [C18:failed_mutation_puts_previous_content_back] result2 != nil && renames == old(renames) + 2 ==> renamedContent == local(data)
+//@   ensures [C18:at_most_forward_and_rollback_write] renames >= old(renames) && renames <= old(renames) + 2
+//@   ensures [C18:success_means_written_once_and_reloaded] result2 == nil && result0.Applied ==> renames == old(renames) + 1 && renamedContent == local(formatted)
